@@ -300,6 +300,7 @@ func generateC17(repo, outFile string) ([]c17Handler, error) {
 			fmt.Fprintf(&body, "\n// %s.%s: %s\n//vrf:cover refused\n//vrf:bound every field of %s arbitrary (numeric leaves symbolic, slices of length 1); sender != governance authority\nfunc H_Gov_%s_%s() {\n",
 				m, h.Method, h.Why, h.Req, m, h.Method)
 			fmt.Fprintf(&body, "\tenv := wire.New(wire.Opts{})\n\tmsg := &%stypes.%s%s\n\tmsg.%s = someone\n", m, h.Req, lit, h.SenderField)
+			fmt.Fprintf(&body, "\tadversarialState(env, msg, someone)\n")
 			fmt.Fprintf(&body, "\tsrv := %skeeper.NewMsgServerImpl(*env.%s)\n\tbefore := env.W.TotalWrites()\n", m, c17Modules[m])
 			fmt.Fprintf(&body, "\t_, err := srv.%s(env.Ctx, msg)\n", h.Method)
 			fmt.Fprintf(&body, "\tvrf.Assert(err != nil, \"C17: %s.%s refuses a sender that is not the governance authority\")\n", m, h.Method)
